@@ -59,6 +59,11 @@ CHECKS = {
    text="WriteTool._apply_changes/_apply_mutations/_is_delete_sentinel/_normalize_value_for_ast run under CrossHair on a document with top-level keys, a block and a section that reuse the same key names and META, with a request of one or two entries whose key is chosen by the solver from existing keys, a fresh key, META.X and META and whose operation ranges over DELETE, null, symbolic string (<= 2 chars), any int, list, dict, empty string and empty list: unnamed nodes are the same objects with the same value objects in the same order, nested same-named keys are untouched, DELETE removes exactly that key, null stays None and is distinct from \"\" and [], META requests merge. The emitted canonical lines of everything not named are compared before/after for every key x operation; Absent (with null as control) is placed at nine sites of a constructed AST and must never be emitted; the CLI --changes callback must hand the writer the same text as the tool.",
    note="Read-back of null / empty string / empty list as distinct values is C04/C01; request keys come from a finite pool because dict keys realise; sequences of requests follow from the one-step frame condition (no hidden state).",
    ref="DESIGN.md §4 C18"),
+ "C05": dict(
+   technique="CrossHair symbolic execution of the real fence detector, the fence-span branch sliced from tokenize, the Parser, the emitter's zone routes and every value pipeline, on symbolic zone content",
+   text="_normalize_with_fence_detection/_evaluate_fence_line run under CrossHair on texts whose zone body is symbolic (<= 2 chars of ANY character for fence lengths 3, 4, 5 with/without tag and indentation; <= 4 chars for the plain layout; odd layouts at <= 1): exactly one span, the span's bytes identical to the input (tabs, backslashes, quotes, U+212B untouched), text before and after still NFC-normalised, marker/tag as written; nested (>= length) and unterminated fences give E007/E006. The fence-span branch of tokenize is lifted from the live source by AST slicing and executed on the detector's output: FENCE_OPEN/LITERAL_CONTENT/FENCE_CLOSE carry marker, tag and exactly the body, an indented fence reports its INDENT, scanning and line numbering resume after the zone. The real Parser and emit run on the real tokenizer's token layout for three skeletons (assignment value; bare block child first; bare child between siblings) with a symbolic LITERAL_CONTENT value <= 3 chars: fields equal the source, neighbours keep value and parent, output equals the expected canonical text. Three emission routes and six value pipelines (repair, write normalisation, eject JSON/Markdown, changes/mutations) leave the three fields untouched for symbolic content <= 4.",
+   note="NFC replaced by the faithful-fragment stub; bodies longer than the bounds, fence length > 5 and octave_write's pre-lexing regex passes are outside the claim; listed finding zone-single-empty-line excluded as a family (body '' ) and re-confirmed by a witness.",
+   ref="DESIGN.md §4 C05"),
 }
 NOT_APPLICABLE = {
  "C06": "quantifies over interpreter configurations (PYTHONHASHSEED, locale, cwd, process boundaries, task interleavings); symbolic execution runs inside one configuration and cannot make these symbolic (DESIGN.md §4 C06)",
